@@ -194,6 +194,15 @@ class Woven:
         # anchored proof-only text (see is_hint): a failing assertion inside it is a failure of the hint, not of the code
         self.chunks.append(Chunk(pos, text, label, self.root._seq, hint=(label is None and is_hint(text) and 'proof' in text)))
 
+    def _alt(self, pattern):
+        """An anchor may be given as a tuple of spellings (`let x =`, `let mut x =`): the first one present is used."""
+        if isinstance(pattern, (tuple, list)):
+            for alt in pattern:
+                if self._find(alt, count=True) >= 1:
+                    return alt
+            return pattern[0]
+        return pattern
+
     def insert_before_tok(self, idx, text, label=None):
         self._ins(self.ct[idx][2], text, label)
 
@@ -203,6 +212,7 @@ class Woven:
     def insert_before(self, pattern, text, nth='only', label=None, optional=False):
         """optional=True: a proof hint that only helps the statement it is anchored on; when that statement is gone
         the hint is dropped (the obligations it helped with are gone too, or fail on their own)."""
+        pattern = self._alt(pattern)
         if optional and self._find(pattern, count=True) == 0:
             return False
         if label is None and is_hint(text):
@@ -218,6 +228,7 @@ class Woven:
         return True
 
     def insert_after(self, pattern, text, nth='only', label=None, optional=False):
+        pattern = self._alt(pattern)
         if optional and self._find(pattern, count=True) == 0:
             return False
         if label is None and is_hint(text):
@@ -284,6 +295,24 @@ class Woven:
                 continue
             self.repls.append(Repl(self.ct[a][2], self.ct[b][3], '|kv_unused|', 'T16-closure-wildcard'))
             done += 1
+        return done
+
+    def rebind_size_hint(self):
+        """T18: `x.size_hint()` on a plain local `x` is spelled `kv_size_hint(&x)`: Iterator already carries an
+        external trait specification in vstd that cannot be extended, so the method gets its (assumed) contract through a
+        free stand-in with the same value.  Any other receiver shape is left alone (and stays unsupported => undecided)."""
+        done = 0
+        i = self.item.lo
+        while i + 4 <= self.hi:
+            t = self.ct
+            if (t[i][0] == 'id' and t[i + 1][1] == '.' and t[i + 2][1] == 'size_hint' and t[i + 3][1] == '(' and t[i + 4][1] == ')'
+                    and (i == 0 or t[i - 1][1] not in ('.', ':'))
+                    and not any(r.start <= t[i][2] < r.end for r in self.repls)):
+                self.repls.append(Repl(t[i][2], t[i + 4][3], 'kv_size_hint(&%s)' % t[i][1], 'T18-size-hint'))
+                done += 1
+                i += 5
+                continue
+            i += 1
         return done
 
     def spell_byte_strings(self):
